@@ -68,9 +68,9 @@ Proof. exact names_of_spec. Qed.
 Print Assumptions C19_names_in_order.
 
 (* when every conversion returns a text, the loop yields exactly those names and one text per
-   entry, both in mapping order *)
+   entry, both in mapping order, for each of the three output types *)
 Theorem C19_loop_names_and_texts : forall tpl type_ o es names,
-    two_types type_ -> forallb is_emitted es = true -> names_of tpl es = GOk names ->
+    known_type type_ = true -> forallb is_emitted es = true -> names_of tpl es = GOk names ->
     snd (run_entries tpl type_ o es) = GOk (names, texts_of es).
 Proof. exact run_entries_ok. Qed.
 Print Assumptions C19_loop_names_and_texts.
@@ -107,14 +107,22 @@ Theorem C19_cli_refuses : forall ps x old,
 Proof. exact C19_cli_refuses_lemma. Qed.
 Print Assumptions C19_cli_refuses.
 
-(* no imports file, types class / argparse, every entry converts: C19 holds *)
-Theorem C19_no_imports : forall ps, python_like ps -> forall x,
+(* fresh output, every entry converts: C19 holds for each of the three types, any number of
+   entries, any imports file, prepend with or without a final newline *)
+Theorem C19_all_entries_convert : forall ps, python_like ps -> forall x,
     C19_domain ps x = true -> ci_existing x = None ->
-    gi_type (ci_gen x) <> L "function" -> gi_imports_from_file (ci_gen x) = None ->
     forallb is_emitted (entries_of (ci_gen x)) = true ->
     C19_at ps x.
-Proof. exact C19_no_imports_lemma. Qed.
-Print Assumptions C19_no_imports.
+Proof. exact C19_all_entries_convert_lemma. Qed.
+Print Assumptions C19_all_entries_convert.
+
+(* the header of the assembled text parses to prepend's statements followed by the imports, for
+   any number of import statements *)
+Theorem C19_header_parses : forall ps, python_like ps -> forall gi header,
+    header_of ps gi = Some header ->
+    ps (prepend_arg (gi_prepend gi) ++ imports_text ps gi) = Some header.
+Proof. exact C19_header_parses_lemma. Qed.
+Print Assumptions C19_header_parses.
 
 (* missing required option, or --type outside the three choices: usage error, nothing runs *)
 Theorem C19_cli_usage : forall a ex,
@@ -134,25 +142,10 @@ Theorem C19_refuted_nonvacuous : exists ps, python_like ps /\ ~ C19_statement ps
 Proof. exact GenFacts.C19_refuted_nonvacuous. Qed.
 Print Assumptions C19_refuted_nonvacuous.
 
-Theorem C19_fails_function_type : forall ps x,
-    gi_type (ci_gen x) = L "function" -> ci_existing x = None ->
-    (forall es, gi_mapping (ci_gen x) = GOk es -> es <> []) -> ~ C19_at ps x.
-Proof. exact C19_fails_function_type_lemma. Qed.
-Print Assumptions C19_fails_function_type.
-
 Theorem C19_fails_entry : forall ps x es,
     gi_mapping (ci_gen x) = GOk es -> forallb is_emitted es = false -> ci_existing x = None -> ~ C19_at ps x.
 Proof. exact C19_fails_entry_lemma. Qed.
 Print Assumptions C19_fails_entry.
-
-Theorem C19_fails_glued_imports : forall ps, python_like ps -> forall x,
-    C19_domain ps x = true -> ci_via x = ViaApi -> ci_existing x = None ->
-    gi_type (ci_gen x) <> L "function" ->
-    forallb is_emitted (entries_of (ci_gen x)) = true ->
-    2 <= n_file_imports ps (ci_gen x) -> prepend_open_line (ci_gen x) = false ->
-    snd (gen ps (ci_gen x)) = GErr xSyntaxError /\ ~ C19_at ps x.
-Proof. exact C19_fails_glued_imports_lemma. Qed.
-Print Assumptions C19_fails_glued_imports.
 
 Theorem C19_api_appends : forall ps x old g,
     ci_via x = ViaApi -> ci_existing x = Some old -> snd (gen ps (ci_gen x)) = GOk g ->
@@ -168,32 +161,19 @@ Proof. exact C19_refuted_api_append_lemma. Qed.
 Print Assumptions C19_refuted_api_append.
 
 (* ---- instances computed on inputs recorded from real runs *)
+(* two entries, two imports, prepend without a final newline: inside the guard, and it runs *)
 Example C19_nonvacuous :
   guard_C19 (table_parse w_in_guard_tab) w_in_guard = true
   /\ exists written, snd (run_c19 (table_parse w_in_guard_tab) w_in_guard) = Some written.
 Proof. exact C19_nonvacuous_lemma. Qed.
 Print Assumptions C19_nonvacuous.
 
-Example C19_witness_imports_glued :
-  C19_domain (table_parse w_imports_glued_tab) w_imports_glued = true
-  /\ finding_class_C19 (table_parse w_imports_glued_tab) w_imports_glued = Some K_imports_glued
-  /\ fst (run_c19 (table_parse w_imports_glued_tab) w_imports_glued) = GErr (L "SyntaxError").
-Proof. exact w_imports_glued_fails. Qed.
-Print Assumptions C19_witness_imports_glued.
-
-Example C19_witness_prepend_glued :
-  C19_domain (table_parse w_prepend_glued_tab) w_prepend_glued = true
-  /\ finding_class_C19 (table_parse w_prepend_glued_tab) w_prepend_glued = Some K_prepend_glued
-  /\ fst (run_c19 (table_parse w_prepend_glued_tab) w_prepend_glued) = GErr (L "SyntaxError").
-Proof. exact w_prepend_glued_fails. Qed.
-Print Assumptions C19_witness_prepend_glued.
-
-Example C19_witness_function_type :
-  C19_domain (table_parse w_function_type_tab) w_function_type = true
-  /\ finding_class_C19 (table_parse w_function_type_tab) w_function_type = Some K_function_type
-  /\ fst (run_c19 (table_parse w_function_type_tab) w_function_type) = GErr (L "TypeError").
-Proof. exact w_function_type_fails. Qed.
-Print Assumptions C19_witness_function_type.
+(* the same with output type function *)
+Example C19_nonvacuous_function :
+  guard_C19 (table_parse w_in_guard_function_tab) w_in_guard_function = true
+  /\ exists written, snd (run_c19 (table_parse w_in_guard_function_tab) w_in_guard_function) = Some written.
+Proof. exact C19_nonvacuous_function_lemma. Qed.
+Print Assumptions C19_nonvacuous_function.
 
 Example C19_witness_annotated :
   C19_domain (table_parse w_annotated_tab) w_annotated = true
@@ -222,6 +202,20 @@ Example C19_witness_returns_argparse :
   /\ fst (run_c19 (table_parse w_returns_argparse_tab) w_returns_argparse) = GErr (L "TypeError").
 Proof. exact w_returns_argparse_fails. Qed.
 Print Assumptions C19_witness_returns_argparse.
+
+Example C19_witness_returns_function :
+  C19_domain (table_parse w_returns_function_tab) w_returns_function = true
+  /\ finding_class_C19 (table_parse w_returns_function_tab) w_returns_function = Some K_entry_returns_function
+  /\ fst (run_c19 (table_parse w_returns_function_tab) w_returns_function) = GErr (L "AttributeError").
+Proof. exact w_returns_function_fails. Qed.
+Print Assumptions C19_witness_returns_function.
+
+Example C19_witness_untyped_param :
+  C19_domain (table_parse w_untyped_param_tab) w_untyped_param = true
+  /\ finding_class_C19 (table_parse w_untyped_param_tab) w_untyped_param = Some K_entry_untyped_param
+  /\ fst (run_c19 (table_parse w_untyped_param_tab) w_untyped_param) = GErr (L "TypeError").
+Proof. exact w_untyped_param_fails. Qed.
+Print Assumptions C19_witness_untyped_param.
 
 Example C19_witness_api_appends :
   C19_domain (table_parse w_api_appends_tab) w_api_appends = true
